@@ -88,7 +88,11 @@ pub fn parse_tex_adt<R: Read + Seek>(
         if let Some(chunks) = discovery.get_chunks(ChunkId::MTXP) {
             if let Some(chunk_info) = chunks.first() {
                 reader.seek(SeekFrom::Start(chunk_info.offset + 8))?;
-                Some(MtxpChunk::read_le(reader)?)
+                // Read chunk data into buffer to prevent the until-EOF loop from reading
+                // past the chunk boundary
+                let chunk_data = read_chunk_data(reader, chunk_info.size)?;
+                let mut cursor = std::io::Cursor::new(chunk_data);
+                Some(MtxpChunk::read_le(&mut cursor)?)
             } else {
                 None
             }
@@ -432,13 +436,19 @@ fn parse_mcnk_object_chunks<R: Read + Seek>(
             // Parse subchunk based on ID
             match subchunk_header.id {
                 ChunkId::MCRD => {
+                    // Read chunk data into buffer to prevent until_eof from reading past
+                    // the subchunk boundary
                     reader.seek(SeekFrom::Start(current_pos))?;
-                    let mcrd = McrdChunk::read_le(reader)?;
+                    let chunk_data = read_chunk_data(reader, subchunk_header.size)?;
+                    let mcrd = McrdChunk::read_le(&mut Cursor::new(chunk_data))?;
                     doodad_refs = mcrd.doodad_refs;
                 }
                 ChunkId::MCRW => {
+                    // Read chunk data into buffer to prevent until_eof from reading past
+                    // the subchunk boundary
                     reader.seek(SeekFrom::Start(current_pos))?;
-                    let mcrw = McrwChunk::read_le(reader)?;
+                    let chunk_data = read_chunk_data(reader, subchunk_header.size)?;
+                    let mcrw = McrwChunk::read_le(&mut Cursor::new(chunk_data))?;
                     wmo_refs = mcrw.wmo_refs;
                 }
                 _ => {
